@@ -27,12 +27,16 @@ fn rel_class(hook: bool, named_is_delivered: bool, named_in_pair: bool, amount_e
 impl StepOracle for C02Oracle {
     fn on_step(&mut self, cx: &mut StepCtx, classes: &mut Vec<&'static str>) -> Verdict {
         let w = &*cx.world;
-        let (pair, hook, offer, delivered, receiver) = match cx.intent {
-            Intent::Swap { pair, hook, offer, delivered, receiver } => (*pair, *hook, offer, delivered, receiver),
+        let (pair, hook, offer, delivered, receiver, payer) = match cx.intent {
+            Intent::Swap { pair, hook, offer, delivered, receiver, payer } => (*pair, *hook, offer, delivered, receiver, payer),
             _ => return Verdict::Pass,
         };
         let pr = &w.pairs[pair];
-        let trader = cx.rec.step.sender.clone();
+        // (the account the offer leaves: the sender, or the owner whose allowance a `SendFrom` spends)
+        let trader = payer.clone();
+        if *payer != cx.rec.step.sender {
+            classes.push("e:delivered-through-SendFrom");
+        }
         let delivered_of = |info: &AssetInfo| -> u128 { delivered.iter().filter(|(i, _)| i == info).map(|(_, a)| *a).sum() };
         let named_in_pair = pr.infos.contains(&offer.info);
         let named_is_delivered = delivered.iter().any(|(i, a)| *i == offer.info && *a > 0) || (delivered.is_empty() && false);
